@@ -32,6 +32,15 @@ func VerifEncoderState(e *Encoder) (classes []string, refKinds []string, nameMap
 	return classes, refKinds, len(e.nameMap)
 }
 
+// VerifEncoderRefs returns the reference counter and, for every registered address, its ordinal.
+func VerifEncoderRefs(e *Encoder) (count int, byAddr map[uintptr]int) {
+	byAddr = make(map[uintptr]int, len(e.refMap))
+	for a, r := range e.refMap {
+		byAddr[uintptr(a)] = r.index
+	}
+	return e.refCount, byAddr
+}
+
 // VerifDecoderState returns the type list, the class list (name and field names)
 // and the kinds held in the reference list.
 func VerifDecoderState(d *Decoder) (types []string, classes []string, refKinds []string, typMapLen int) {
